@@ -479,14 +479,28 @@ hdr_reset(int cfg, uint64_t seed, long crash_at)
         H->crash_at = crash_at;
 }
 
+/* returns the exit code, -2 if the child was killed by a signal (*sig), -3 if it did not finish within the watchdog
+ * (a healthy primary/secondary needs milliseconds; 90 s is far beyond any scheduling delay on a loaded machine) and was killed */
 static int
 wait_child(pid_t pid, int *sig)
 {
         int st;
         *sig = 0;
-        while (waitpid(pid, &st, 0) < 0)
-                if (errno != EINTR)
+        for (int waited_ms = 0;; waited_ms += 5) {
+                pid_t r = waitpid(pid, &st, WNOHANG);
+                if (r == pid)
+                        break;
+                if (r < 0 && errno != EINTR)
                         return -1;
+                if (waited_ms > 90000) {
+                        kill(pid, SIGKILL);
+                        while (waitpid(pid, &st, 0) < 0 && errno == EINTR)
+                                ;
+                        *sig = SIGKILL;
+                        return -3;
+                }
+                usleep(waited_ms < 200 ? 200 : 5000);
+        }
         if (WIFSIGNALED(st)) {
                 *sig = WTERMSIG(st);
                 return -2;
@@ -523,6 +537,7 @@ eng_crash(void)
                 ev_note("crash-exec-binary", "IMBV_CRASH_EXEC not set: exec'ed secondaries not run");
         long hist = 0;
         uint64_t n_points = 0, n_exec_diff = 0, n_exec = 0;
+        int n_hangs = 0;
         for (long cs = g_opt.shard; cs < g_opt.cases; cs += g_opt.nshards) {
                 int v = (int) (cs % g_nvariants);
                 int cfg = g_variant_cfg[v];
@@ -584,10 +599,14 @@ eng_crash(void)
                                 if (kind == 0) {
                                         if (rc != 0) {
                                                 char key[160], det[160];
-                                                snprintf(key, sizeof key, "C16|%s|same-process|died", variant_name(H->variant));
+                                                snprintf(key, sizeof key, "C16|%s|same-process|%s", variant_name(H->variant), rc == -3 ? "hang" : "died");
                                                 snprintf(det, sizeof det, "same-process re-attach ended rc=%d signal=%d at crash point %ld", rc,
                                                          sig, c);
                                                 ev_violation("C16", key, det, NULL);
+                                                if (rc == -3 && ++n_hangs >= 2)
+                                                        goto out; /* every further point would cost another watchdog period */
+                                                if (rc == -3)
+                                                        goto next_history;
                                                 continue;
                                         }
                                 } else {
@@ -614,8 +633,8 @@ eng_crash(void)
                                         rc = wait_child(pid, &sig);
                                         if (rc != 0 || !H->sec_done) {
                                                 char key[160], det[200];
-                                                snprintf(key, sizeof key, "C16|%s|%s|died", variant_name(H->variant),
-                                                         kind == 1 ? "fork" : "exec");
+                                                snprintf(key, sizeof key, "C16|%s|%s|%s", variant_name(H->variant),
+                                                         kind == 1 ? "fork" : "exec", rc == -3 ? "hang" : "died");
                                                 snprintf(det, sizeof det,
                                                          "re-attaching process ended rc=%d signal=%d done=%d (crash point %ld, %d in flight)", rc,
                                                          sig, H->sec_done, c, H->n_inflight);
@@ -624,6 +643,10 @@ eng_crash(void)
                                                          "{\"engine\":\"crash\",\"cfg\":%d,\"seed\":%llu,\"crash_at\":%ld,\"kind\":%d}", cfg,
                                                          (unsigned long long) seed, c, kind);
                                                 ev_violation("C16", key, det, rp);
+                                                if (rc == -3 && ++n_hangs >= 2)
+                                                        goto out;
+                                                if (rc == -3)
+                                                        goto next_history;
                                                 continue;
                                         }
                                         if (kind == 2) {
@@ -651,7 +674,9 @@ eng_crash(void)
                                         cov_count("points_with_inflight", 1);
                         }
                 }
+        next_history:;
         }
+out:
         cov_count("histories", (uint64_t) hist);
         cov_count("crash_points", n_points);
         cov_count("exec_secondaries", n_exec);
